@@ -219,6 +219,8 @@ func genPlan(r *rand.Rand) *plan {
 			}
 			pl.ops = append(pl.ops, op{kind: "readd", arg: r.Intn(1 << 20)}, op{kind: "build"}, op{kind: "ceq", p: pt(), q: pt()}, op{kind: "ceq", p: pt(), q: pt()})
 			o = op{kind: "cpq", p: pt()}
+		case k == 12 && r.Intn(3) == 0:
+			o = op{kind: "dupadd", arg: r.Intn(1 << 20)} // a shape object that is already in the index is added once more
 		case k < 8:
 			o = op{kind: "cpq", p: pt()}
 		case k == 8:
@@ -428,11 +430,27 @@ func oneHistory(c *mon.Case) {
 				continue
 			}
 			k := o.arg % len(cur)
+			for j := range cur { // Remove(shape) takes out the occurrence with the lowest id if the object was added twice
+				if cur[j] == cur[k] {
+					k = j
+					break
+				}
+			}
 			idx.Remove(pl.pool[cur[k]].Shape)
 			removed = append(removed, cur[k])
 			cur = append(cur[:k:k], cur[k+1:]...)
 			modified()
 			c.Count("ops.remove", 1)
+			nontrivial = true
+		case "dupadd":
+			if len(cur) == 0 {
+				continue
+			}
+			k := cur[o.arg%len(cur)]
+			idx.Add(pl.pool[k].Shape)
+			cur = append(cur, k)
+			modified()
+			c.Count("ops.same_shape_object_added_twice", 1)
 			nontrivial = true
 		case "readd":
 			if len(removed) == 0 {
